@@ -412,8 +412,22 @@ def parser_skeleton(repo):
             prev = t
         return out
 
+    def la_reads(src, state_rx, la_rx):
+        """ATN state entered last at every refresh of the look-ahead variable"""
+        out, last = [], 0
+        for ln in src.split("\n"):
+            t = ln.strip()
+            m = re.match(state_rx, t)
+            if m:
+                last = int(m.group(1))
+            elif re.match(la_rx, t):
+                out.append(last)
+        return out
+
     pc, cc = py_control(py), cpp_control(cpp)
     return {
+        "pyLaReads": la_reads(py, r"self\.state = (\d+)$", r"_la = self\._input\.LA\(1\)$"),
+        "cppLaReads": la_reads(cpp, r"setState\((\d+)\);$", r"_la = _input->LA\(1\);$"),
         "pyControlStates": [n for n, _ in pc], "pyControlKinds": [k for _, k in pc],
         "cppControlStates": [n for n, _ in cc], "cppControlKinds": [k for _, k in cc],
         "pyPredict": [int(x) for x in re.findall(r"adaptivePredict\(self\._input,\s*(\d+),\s*self\._ctx\)", py)],
@@ -435,12 +449,46 @@ def emit_artefacts(data, names, toks):
     for k in sorted(toks):
         out.append(emit_tokens(k, toks[k]))
     sk = parser_skeleton(REPO)
-    for k in ("pyPredict", "cppPredict", "pyStates", "cppStates", "pyControlStates", "cppControlStates"):
+    for k in ("pyPredict", "cppPredict", "pyStates", "cppStates", "pyControlStates", "cppControlStates", "pyLaReads", "cppLaReads"):
         out.append(emit_nat_list(k, sk[k]))
     for k in ("pyMatch", "cppMatch", "pyControlKinds", "cppControlKinds"):
         out.append(emit_str_list(k, sk[k]))
+    for k, v in sorted(code_constants(REPO).items()):
+        out.append(emit_tokens(k, v))
     out.append("end Gen")
     return "\n".join(out) + "\n"
+
+
+def code_constants(repo):
+    """the token-type and rule-index constants the generated code is compiled against: the class attributes of the
+    Python lexer / parser and the enums of the C++ headers (name, number), in source order"""
+    import re
+    pyd = os.path.join(repo, "blackbird_python", "blackbird")
+    cpd = os.path.join(repo, "blackbird_cpp")
+    out = {}
+
+    def py_consts(path, rule_prefix):
+        src = open(path, encoding="utf-8").read()
+        toks = [(m.group(1), int(m.group(2))) for m in re.finditer(r"^    ([A-Z][A-Z_0-9]*)\s*=\s*(\d+)\s*$", src, re.M)]
+        rules = [(m.group(1), int(m.group(2))) for m in re.finditer(r"^    RULE_([A-Za-z_0-9]+)\s*=\s*(\d+)\s*$", src, re.M)]
+        return toks, rules
+
+    def cpp_enums(path):
+        src = open(path, encoding="utf-8").read()
+        enums = []
+        for m in re.finditer(r"enum\s*\{(.*?)\};", src, re.S):
+            enums.append([(n, int(v)) for n, v in re.findall(r"([A-Za-z_][A-Za-z_0-9]*)\s*=\s*(\d+)", m.group(1))])
+        return enums
+    t, r = py_consts(os.path.join(pyd, "blackbirdParser.py"), True)
+    out["pyParserTokenConsts"], out["pyParserRuleConsts"] = t, r
+    t, _ = py_consts(os.path.join(pyd, "blackbirdLexer.py"), False)
+    out["pyLexerTokenConsts"] = t
+    e = cpp_enums(os.path.join(cpd, "blackbirdParser.h"))
+    out["cppParserTokenConsts"] = e[0] if e else []
+    out["cppParserRuleConsts"] = [(n[4:5].lower() + n[5:], v) for n, v in (e[1] if len(e) > 1 else [])]
+    e = cpp_enums(os.path.join(cpd, "blackbirdLexer.h"))
+    out["cppLexerTokenConsts"] = e[0] if e else []
+    return out
 
 
 def write_if_changed(path, text):
